@@ -264,6 +264,19 @@ func c12StepLevel(c *ctx, rng *core.Rand, _ []*core.Session, n int) error {
 			stepDoc.Delete("matrix")
 			perm = map[string]string{}
 		}
+		if c12Mode == 1 && rng.Intn(8) == 0 {
+			// inside a plugin config (a plain Go map): a token key that is replaced by a text another key of the
+			// same map already has, that key sorting after '{', and a permutation value that itself looks like a
+			// token — one pass over the original entries, whatever the collision rule
+			cfg := ordered.NewMap[string, any](3)
+			cfg.Set("{{ matrix.os }}", "first")
+			cfg.Set("{{matrix.arch}}", "second {{matrix.os}}")
+			cfg.Set("~{{matrix.arch}}", "third")
+			cfg.Set("~x86", "literal {{matrix.arch}}")
+			cfg.Set("~arm", "literal {{matrix.arch}}")
+			stepDoc.Set("plugins", []any{ordered.MapFromItems(ordered.TupleSA{Key: "collide#v1", Value: cfg})})
+			c.res.Hist("step.token-key-collides-with-later-literal-key")
+		}
 		src, err := yaml.Marshal([]any{stepDoc})
 		if err != nil {
 			continue
